@@ -182,6 +182,32 @@ def abc_tables(repo: Repo, res: CheckResult) -> None:
     if prox != want:
         res.add(Finding("C02", "ABC.proxies", fr.rel, "FilledRetort", str(prox),
                         f"the builtin recipe must proxy {want}", 0))
+    # the proxy hands the TYPE ARGUMENTS on: Mapping[int, str] -> dict[int, str] (a bare dict loads keys and values as Any)
+    pt = repo.mod("morphing/provider_template")
+    px = pt.classes.get("ABCProxy")
+    if px is None:
+        raise AnalysisError("anchor vanished: ABCProxy")
+    for mname in ("provide_loader", "provide_dumper"):
+        fnp = px.methods.get(mname)
+        if fnp is None:
+            raise AnalysisError(f"anchor vanished: ABCProxy.{mname}")
+        res.evaluated(f"abc:proxy-arguments:{mname}", True)
+        req = func_params(fnp)[2]
+        reps = [c for c in ast.walk(fnp) if isinstance(c, ast.Call) and isinstance(c.func, ast.Attribute) and c.func.attr == "replace_last_type"]
+        for c in reps:
+            arg = c.args[0] if c.args else None
+            uses_request_type = arg is not None and any(
+                isinstance(x, ast.Attribute) and x.attr in ("type", "args") and req in norm(x) for x in ast.walk(arg))
+            if isinstance(arg, ast.Name):
+                d0 = [a.value for a in ast.walk(fnp) if isinstance(a, ast.Assign) and norm(a.targets[0]) == arg.id]
+                uses_request_type = any(req in norm(d) for d in d0)
+            if not uses_request_type:
+                res.add(Finding("C02", "ABC.proxy-drops-arguments", pt.rel, f"ABCProxy.{mname}", norm(c)[:100],
+                                f"the abstract type is replaced by `{norm(arg) if arg is not None else None}` without the type "
+                                "arguments of the request: Mapping[int, int] is loaded as a bare dict, keys and values pass "
+                                "unvalidated", c.lineno))
+        if not reps:
+            raise AnalysisError(f"ABCProxy.{mname}: no replace_last_type call")
     # _get_iter_factory: abstract -> table, concrete -> the class itself
     gi = mi.classes["IterableProvider"].methods.get("_get_iter_factory")
     if gi is None:
